@@ -183,7 +183,7 @@ def handle : Handler := fun j => do
     F := r.trace.foldl (fun F e => applyF e F) F
     steps := steps.push <| Json.mkObj
       [("out", ofOutcome r.out), ("crashed", Json.bool r.crashed),
-       ("flavs", Json.arr (r.flavs.map ofStrs).toArray), ("view", ofSpec r.view),
+       ("flavs", Json.arr ((allStacks nst).map fun s => ofStrs (heldOf r.flavs s)).toArray), ("view", ofSpec r.view),
        ("trace", Json.arr (r.trace.map ofEff).toArray), ("would", Json.arr (r.would.map ofMsg).toArray),
        ("db", ofSpec w.db),
        ("caches", Json.arr (w.caches.map ofCache).toArray),
